@@ -147,7 +147,7 @@ theorem pyRewrite_compat (a b c : Nat) (cst : LeafC) :
     have h2 : countChar '.' "python_full_version" = 0 := by decide
     have h3 : countChar '.' "~=" = 0 := by decide
     simp only [List.length_cons, List.length_nil] at h1
-    rw [leafText_dots, h1, h2, h3]
+    rw [leafText_dots _ _ _ (relText_nodq _), h1, h2, h3]
   have hlg : (("~=" : String) == "<" || ("~=" : String) == ">=") = false := by decide
   unfold pyRewrite
   simp only [hprec, Nat.lt_irrefl, if_false, hlg, Bool.and_false, Bool.false_and, Bool.false_eq_true]
